@@ -633,3 +633,161 @@ Proof.
     [apply Nat.eq_le_incl, number_length|exact AC|].
   split; [exact Ok|]. rewrite number_fst in Pm. exact Pm.
 Qed.
+
+(* ================================================================== part 4: Network.sort on nested paths *)
+Section ItemInd.
+Variable P : item -> Prop.
+Hypothesis HU : forall u, P (IUnit u).
+Hypothesis HN : forall p r, Forall P p -> P (INet p r).
+Fixpoint item_ind' (i : item) : P i :=
+  match i with
+  | IUnit u => HU u
+  | INet p r =>
+      HN p r ((fix go (l : list item) : Forall P l :=
+                 match l with
+                 | [] => Forall_nil P
+                 | x :: t => Forall_cons x (item_ind' x) (go t)
+                 end) p)
+  end.
+End ItemInd.
+
+Lemma add_all_nil : forall s, add_all s [] = s.
+Proof. reflexivity. Qed.
+
+Lemma flat_map_pointwise_perm : forall (A : Type) (f g : item -> list A) (p : list item),
+  Forall (fun x => Permutation (f x) (g x)) p -> Permutation (flat_map f p) (flat_map g p).
+Proof.
+  intros A f g p F. induction F as [|x t Hx F IH]; [constructor|].
+  cbn [flat_map]. apply Permutation_app; assumption.
+Qed.
+
+(* one level: what Network.sort does to the (already sorted) children *)
+Lemma sort_level_perm : forall es all ends (p1 : list item) p2 stop rs,
+  sort (item_reach es ends) (item_direct all ends) (number p1) = (p2, stop, rs) ->
+  Permutation (map snd p2) p1 /\ Permutation (map fst p2) (seq 0 (length p1)).
+Proof.
+  intros es all ends p1 p2 stop rs E.
+  pose proof (sort_perm_lemma _ _ (item_reach es ends) (item_direct all ends) (number p1)) as P.
+  unfold sorted_path in P. rewrite E in P. cbn [fst] in P. split.
+  - apply Permutation_trans with (map snd (number p1)); [apply Permutation_map; exact P|].
+    rewrite number_snd. reflexivity.
+  - apply Permutation_trans with (map fst (number p1)); [apply Permutation_map; exact P|].
+    rewrite number_fst. reflexivity.
+Qed.
+
+(* sorting never loses, adds or duplicates a unit, whatever the tree and the streams *)
+Lemma sort_tree_flat : forall es all ends i,
+  Permutation (flat (fst (sort_tree es all ends i))) (flat i).
+Proof.
+  intros es all ends i. induction i as [u|p r IH] using item_ind'; [reflexivity|].
+  cbn [sort_tree].
+  destruct (sort (item_reach es ends) (item_direct all ends)
+                 (number (map fst (map (sort_tree es all ends) p)))) as [[p2 stop] rs] eqn:E.
+  cbn [fst flat]. destruct (sort_level_perm _ _ _ _ _ _ _ E) as (Ps & _).
+  eapply Permutation_trans; [apply Permutation_flat_map; exact Ps|].
+  rewrite map_map, flat_map_concat_map, map_map, <- flat_map_concat_map.
+  apply flat_map_pointwise_perm with (f := fun x => flat (fst (sort_tree es all ends x))). exact IH.
+Qed.
+
+(* value-level reach between two items at different positions *)
+Definition reachv (es : list edge) (ends : list nat) (x u : item) : bool :=
+  item_reach es ends (0, x) (1, u).
+
+Lemma item_reach_tags : forall es ends t1 t2 x u, t1 <> t2 ->
+  item_reach es ends (t1, x) (t2, u) = reachv es ends x u.
+Proof.
+  intros es ends t1 t2 x u N. unfold reachv, item_reach. cbn [fst snd].
+  destruct u; [reflexivity|]. apply Nat.eqb_neq in N. rewrite N. reflexivity.
+Qed.
+
+Definition level_sorted (es : list edge) (ends : list nat) (p : list item) : Prop :=
+  forall d a b, a < b -> b < length p -> reachv es ends (nth b p d) (nth a p d) = false.
+
+(* every level: no later item is upstream of an earlier one *)
+Fixpoint tree_sorted (es : list edge) (ends : list nat) (i : item) : Prop :=
+  match i with
+  | IUnit _ => True
+  | INet p _ =>
+      level_sorted es ends p /\
+      (fix go (l : list item) : Prop :=
+         match l with [] => True | x :: t => tree_sorted es ends x /\ go t end) p
+  end.
+
+Lemma tree_sorted_children : forall es ends (p : list item),
+  Forall (tree_sorted es ends) p ->
+  (fix go (l : list item) : Prop :=
+     match l with [] => True | x :: t => tree_sorted es ends x /\ go t end) p.
+Proof. intros es ends p F. induction F as [|x t Hx F IH]; [exact I|split; assumption]. Qed.
+
+Lemma sort_level_strict : forall es all ends (p1 : list item) p2 stop rs,
+  strict_onb (item_reach es ends) (number p1) = true ->
+  sort (item_reach es ends) (item_direct all ends) (number p1) = (p2, stop, rs) ->
+  stop = true /\ rs = [] /\ level_sorted es ends (map snd p2).
+Proof.
+  intros es all ends p1 p2 stop rs S E.
+  destruct (strict_onb_sound _ _ _ S) as (T & Ir).
+  pose proof (sort_quiet_lemma _ _ (item_reach es ends) (item_direct all ends)
+                (fun x => In x (number p1)) T Ir (number p1) (fun x H => H)) as Q.
+  unfold sort_stop, sort_recycles in Q. rewrite E in Q. cbn [fst snd] in Q. destruct Q as (Q1 & Q2).
+  split; [exact Q1|]. split; [exact Q2|].
+  destruct (sort_level_perm _ _ _ _ _ _ _ E) as (Ps & Pf).
+  intros d a b Hab Hb. rewrite map_length in Hb.
+  pose proof (sort_topo_lemma _ _ (item_reach es ends) (item_direct all ends)
+                (fun x => In x (number p1)) T Ir (number p1) (fun x H => H) (0, d) a b Hab) as Tp.
+  unfold sorted_path in Tp. rewrite E in Tp. cbn [fst] in Tp.
+  assert (Len : length p2 = length (number p1)).
+  { pose proof (sort_perm_lemma _ _ (item_reach es ends) (item_direct all ends) (number p1)) as P.
+    unfold sorted_path in P. rewrite E in P. cbn [fst] in P. apply Permutation_length. exact P. }
+  assert (Hb' : b < length (number p1))
+    by (apply Nat.lt_le_trans with (length p2); [exact Hb|apply Nat.eq_le_incl; exact Len]).
+  specialize (Tp Hb').
+  assert (ND : NoDup (map fst p2)).
+  { eapply Permutation_NoDup; [apply Permutation_sym; exact Pf|apply seq_NoDup]. }
+  assert (Ntag : fst (nth b p2 (0, d)) <> fst (nth a p2 (0, d))).
+  { intros Eq. rewrite <- !(map_nth (@fst nat item)) in Eq.
+    assert (b = a); [|lia].
+    apply (proj1 (NoDup_nth (map fst p2) (fst (0, d))) ND); rewrite ?map_length; try lia; try exact Eq. }
+  change d with (snd (0, d)). rewrite !(map_nth (@snd nat item)).
+  destruct (nth b p2 (0, d)) as [tb xb] eqn:Eb. destruct (nth a p2 (0, d)) as [ta xa] eqn:Ea.
+  cbn [fst snd] in *. rewrite (item_reach_tags _ _ _ _ _ _ Ntag) in Tp.
+  replace (snd (@nth (nat * item) b p2 (0, d))) with xb
+    by (change (@nth (nat * item) b p2 (0, d)) with (@nth titem b p2 (0, d)); rewrite Eb; reflexivity).
+  replace (snd (@nth (nat * item) a p2 (0, d))) with xa
+    by (change (@nth (nat * item) a p2 (0, d)) with (@nth titem a p2 (0, d)); rewrite Ea; reflexivity).
+  exact Tp.
+Qed.
+
+(* if every level is strictly ordered: no warning, no recycle added anywhere, every level sorted *)
+Lemma sort_tree_strict : forall es all ends i, tree_strictb es all ends i = true ->
+  snd (sort_tree es all ends i) = true /\
+  Permutation (all_recycles (fst (sort_tree es all ends i))) (all_recycles i) /\
+  tree_sorted es ends (fst (sort_tree es all ends i)).
+Proof.
+  intros es all ends i. induction i as [u|p r IH] using item_ind'; intros S.
+  - cbn. auto.
+  - cbn [tree_strictb] in S. apply andb_true_iff in S. destruct S as (Sc & Sl).
+    rewrite forallb_forall in Sc.
+    assert (IH' : Forall (fun x => snd (sort_tree es all ends x) = true /\
+                    Permutation (all_recycles (fst (sort_tree es all ends x))) (all_recycles x) /\
+                    tree_sorted es ends (fst (sort_tree es all ends x))) p).
+    { rewrite Forall_forall in *. intros x Hx. apply IH; auto. }
+    cbn [sort_tree]. rewrite map_map.
+    destruct (sort (item_reach es ends) (item_direct all ends)
+                   (number (map (fun x => fst (sort_tree es all ends x)) p))) as [[p2 stop] rs] eqn:E.
+    destruct (sort_level_strict _ _ _ _ _ _ _ Sl E) as (St & Rs & Lv). subst stop rs.
+    destruct (sort_level_perm _ _ _ _ _ _ _ E) as (Ps & _).
+    cbn [fst snd]. split; [|split].
+    + rewrite andb_true_r. apply forallb_forall. intros x Hx. apply in_map_iff in Hx.
+      destruct Hx as (y & Ey & Hy). subst x. rewrite Forall_forall in IH'. apply (IH' y Hy).
+    + cbn [all_recycles]. rewrite add_all_nil. apply Permutation_app_head.
+      eapply Permutation_trans; [apply Permutation_flat_map; exact Ps|].
+      rewrite flat_map_concat_map, map_map, <- flat_map_concat_map.
+      apply flat_map_pointwise_perm with (f := fun x => all_recycles (fst (sort_tree es all ends x))).
+      eapply Forall_impl; [|exact IH']. intros x (_ & H & _). exact H.
+    + cbn [tree_sorted]. split; [exact Lv|]. apply tree_sorted_children.
+      rewrite Forall_forall. intros x Hx.
+      assert (Hx' : In x (map (fun y => fst (sort_tree es all ends y)) p))
+        by (eapply Permutation_in; [exact Ps|exact Hx]).
+      apply in_map_iff in Hx'. destruct Hx' as (y & Ey & Hy). subst x.
+      rewrite Forall_forall in IH'. apply (IH' y Hy).
+Qed.
